@@ -43,8 +43,9 @@ var c02committees = []kit.Committee{
 	kit.WeightedCommittee(1, 1, 1, 3),
 	kit.EqualCommittee(5),
 	kit.WeightedCommittee(0, 1, 1, 1, 1),
-	kit.WeightedCommittee(0, 0, 0, 0), // total weight 0: no subset is a quorum, nothing may be accepted
-	kit.LongIDCommittee(4),            // member ids of 42 bytes that share their first 41 bytes
+	kit.WeightedCommittee(0, 0, 0, 0),         // total weight 0: no subset is a quorum, nothing may be accepted
+	kit.LongIDCommittee(4),                    // member ids of 42 bytes that share their first 41 bytes
+	kit.WeightedCommittee(1<<63, 1<<63, 1, 1), // total weight 2^64+2 does not fit in 64 bits (recorded known finding: the sums wrap)
 }
 
 const c02height = 5
@@ -259,7 +260,9 @@ func c02eval(r *Rec, mu *sync.Mutex, v *lh.VerifNode, cm int, proof []byte, bloc
 	if p2 != "" {
 		r.Bad("C02:getmemberids-panics", "GetMemberIdsFromBlockProof panics: "+p2, cs)
 	}
-	if err == nil && !want {
+	if err == nil && !want && c02overflows(c02committees[cm]) {
+		r.Bad("C02:accepted-with-committee-weight-above-64-bits", fmt.Sprintf("ValidateBlockConsensus accepted a proof that is not a genuine commit certificate (%s) for a committee whose total weight does not fit in 64 bits", why), cs)
+	} else if err == nil && !want {
 		r.Bad("C02:accepted-"+sanitize(why), fmt.Sprintf("ValidateBlockConsensus accepted a proof that is not a genuine commit certificate: %s", why), cs)
 	}
 	if d != nil && p2 == "" { // well-formed: ids must be exactly the node ids
@@ -276,6 +279,14 @@ func c02eval(r *Rec, mu *sync.Mutex, v *lh.VerifNode, cm int, proof []byte, bloc
 	return err == nil
 }
 
+func c02overflows(c kit.Committee) bool {
+	sum := new(big.Int)
+	for _, m := range c {
+		sum.Add(sum, new(big.Int).SetUint64(m.Weight))
+	}
+	return sum.BitLen() > 64
+}
+
 func block0(b interfaces.Block) interfaces.Block {
 	if b == nil {
 		return nil
@@ -284,7 +295,7 @@ func block0(b interfaces.Block) interfaces.Block {
 }
 
 func c02(r *Rec, replay map[string]interface{}) {
-	r.Rule = "structured: committees {4 equal,(1,2,3,4),(1,1,1,3),5 equal,(0,1,1,1,1),(0,0,0,0),4 equal with 42-byte ids sharing a 41-byte prefix} x every signer subset x {none,+duplicate,+outsider with valid key,+bad signature, signed by the rotating committee of the previous height, signed by the committee the Membership returns for any reference time other than the previous block's} x header type 0..5 x instance {=,!=} x height {-1,0,+1} x hash {block's, other} x view {0,1,2^64-1} x seed signature {valid, wrong height, garbage, empty} x previous proof {nil, valid, garbage} x {strict, soft} x block {ok, nil} (quick: at most two header/seed/prev deviations per case; thorough: full product), all signatures genuinely valid over the (possibly wrong) header; byte level: every truncation and every offset x {0x00,0xFF,+1,-1} mutation of base proofs. Oracle: acceptance implies the independent reference predicate over the re-parsed bytes; never panics. distinct_nontrivial = distinct (committee, weight class of signer set, deviation set, mode) classes"
+	r.Rule = "structured: committees {4 equal,(1,2,3,4),(1,1,1,3),5 equal,(0,1,1,1,1),(0,0,0,0),4 equal with 42-byte ids sharing a 41-byte prefix,(2^63,2^63,1,1) whose total exceeds 64 bits} x every signer subset x {none,+duplicate,+outsider with valid key,+bad signature, signed by the rotating committee of the previous height, signed by the committee the Membership returns for any reference time other than the previous block's} x header type 0..5 x instance {=,!=} x height {-1,0,+1} x hash {block's, other} x view {0,1,2^64-1} x seed signature {valid, wrong height, garbage, empty} x previous proof {nil, valid, garbage} x {strict, soft} x block {ok, nil} (quick: at most two header/seed/prev deviations per case; thorough: full product), all signatures genuinely valid over the (possibly wrong) header; byte level: every truncation and every offset x {0x00,0xFF,+1,-1} mutation of base proofs. Oracle: acceptance implies the independent reference predicate over the re-parsed bytes; never panics. distinct_nontrivial = distinct (committee, weight class of signer set, deviation set, mode) classes"
 	validators := make([]*lh.VerifNode, len(c02committees))
 	for i, c := range c02committees {
 		validators[i] = c02validator(c)
